@@ -134,6 +134,7 @@ ParamsThorough ==
       P(1..5, 2, 3, {"oz", "y10", "o11", "oi"}, Fr(3, 2), {Fr(1, 4), Fr(3, 4), Fr(1, 1)}, {0}, {"fresh"}),
       P({7}, 4, 1, {"o", "os"}, Fr(2, 1), {Half}, {2, 3}, {"fresh"}),
       P({6}, 3, 2, {"y6", "os"}, Fr(2, 1), {Half}, {1, 2, 3}, {"fresh"}),
+      P({7}, 3, 2, {"os", "o"}, Fr(2, 1), {Fr(1, 4)}, {0}, {"fresh"}),
       P(2..6, 3, 2, {"y", "o"}, Fr(2, 1), {Half}, {2}, {"stale", "almost"}) }
 \* simulation: larger populations, all age classes, all modes (MaxN = 10)
 ParamsSim ==
